@@ -365,9 +365,11 @@ def run(ck):
     classes = collections.Counter()
 
     # ================= T2-a: one conversion per function vs val_step =================
-    # compile order of function bodies in the package = sorted member names (cl processPkg);
-    # the extension of a narrow integer type is emitted the first time only (Builder.PyVal writes
-    # the widened LLVM type back into the shared type descriptor) - compared against both readings
+    # the model is the fixed lowering (val_step_of true: every conversion of a narrow integer is
+    # extended).  A tree without the fix "PyVal: do not widen the shared type descriptor" extends the
+    # first conversion of each narrow type only (compile order of function bodies = sorted member
+    # names, cl processPkg); such IR is recognised through val_step_of false and reported under the
+    # specific key, anything else is a broken correspondence
     order = sorted(fns)
     seen = set()
     step_terms, step_raw = [], []
@@ -602,8 +604,8 @@ def run(ck):
     from concurrent.futures import ThreadPoolExecutor
     cterms, rterms, extra = capi_contract_cases()
     jobs = {
-        "step_fixed": (step_terms, "(fun x => val_step (fst x))", "step_eqb"),
-        "step_old": (step_terms, "(fun x => val_step_old (snd x) (fst x))", "step_eqb"),
+        "step_fixed": (step_terms, "(fun x => val_step_of true (snd x) (fst x))", "step_eqb"),
+        "step_old": (step_terms, "(fun x => val_step_of false (snd x) (fst x))", "step_eqb"),
         "plan": (plan_terms, "list_plan", "plan_eqb"),
         "call": (call_terms, "(fun x => call_shape (fst (fst x)) (snd (fst x)) (fst (snd x)) (fst (snd (snd x))) (snd (snd (snd x))))", "ccall_eqb"),
         "loads": (load_terms, "load_mod_syms", "loads_eqb"),
